@@ -371,6 +371,107 @@ def rule_KA7(rep, prog, q):
         rep.unknown(rid, "no caller of _dispatch_runloop_queue_drain_one found")
 
 
+def rule_OD10(rep, prog, q):
+    rid = rep.rule("C17-OD10", "the reference a queue holds on its target queue is taken by the thread that names the new target, BEFORE the retarget can be deferred: "
+                   "every hand-over of a queue to the deferred retarget function (_dispatch_lane_legacy_set_target_queue, run later as a barrier when the queue is "
+                   "busy or suspended) is dominated by a retain of that same queue; the retarget function stores it and releases only the PREVIOUS target", floor=2)
+    n = 0
+    for fn in prog.all_functions():
+        for c in fn.all_insts():
+            if c.op != "call" or not any(o[0] == "f" and o[1] == "_dispatch_lane_legacy_set_target_queue" for o in c.ops):
+                continue
+            n += 1
+            rep.saw(fn)
+            fi = [k_ for k_, o in enumerate(c.ops) if o[0] == "f" and o[1] == "_dispatch_lane_legacy_set_target_queue"][0]
+            ctxt = c.ops[fi - 1]
+            X = root_ptr(fn, ctxt)
+            rets = [r for r in fn.all_insts() if r.op == "call" and r.callee in ("_dispatch_retain", "dispatch_retain", "_os_object_retain_internal", "_dispatch_retain_2")
+                    and root_ptr(fn, r.ops[0]) == X and fn.dominates(r, c)]
+            rep.require(rid, bool(rets), c.loc, fn.name, "deferred-retarget-without-reference",
+                        "%s hands the new target queue to the deferred retarget barrier (%s) without having retained it first: when the queue is busy or suspended the "
+                        "barrier runs later - if the application drops its last reference on the new target in between, the target is finalised and freed while this "
+                        "queue is about to point at it" % (fn.name, c.callee), sample={"call": c.loc})
+    f2 = prog.fn("_dispatch_lane_legacy_set_target_queue")
+    rep.saw(f2)
+    st = [i for i in f2.all_insts() if i.op == "store" and "do_targetq" in prog.fields(i)]
+    def is_new_target(op):
+        r = root_ptr(f2, op)
+        if r == ("a", 0):
+            return True
+        ci = f2.inst(r) if r[0] == "i" else None
+        # the priority-inheritance helper hands back the target it was given (or the root queue standing in for it)
+        return ci is not None and ci.op == "call" and ci.callee == "_dispatch_queue_priority_inherit_from_target" and root_ptr(f2, ci.ops[1]) == ("a", 0)
+    ok = bool(st) and all(is_new_target(i.ops[0]) for i in st)
+    rel = [r for r in f2.all_insts() if r.op == "call" and r.callee and "release" in r.callee]
+    okr = bool(rel) and all(not is_new_target(r.ops[0]) for r in rel)
+    n += 1
+    rep.require(rid, ok and okr, f2.file + ":" + str(f2.d.get("line")), f2.name, "retarget-function-shape",
+                "_dispatch_lane_legacy_set_target_queue must install its context argument as do_targetq and release the previous target (never the new one)",
+                sample={"stores": len(st), "releases": len(rel)})
+    if n < 2:
+        rep.unknown(rid, "no hand-over to _dispatch_lane_legacy_set_target_queue found")
+
+
+def rule_OD11(rep, prog_io):
+    """blocks that release a captured object: when the submitting function itself takes the reference the block will drop, it takes it before EVERY submission
+    of such a block (all branches), so that the block never drops a reference its submitter did not add"""
+    rid = rep.rule("C17-OD11", "dispatch I/O: a function that retains an object on behalf of completion blocks it submits (the block releases the captured object) "
+                   "has taken that reference before every one of those submissions - on the early 'channel closed / stopped' branch as well as on the normal one; "
+                   "otherwise the block drops a reference that belongs to the application and its data's destructor runs while the application still holds it", floor=15)
+    prog = prog_io
+    SUBMIT = ("dispatch_async", "dispatch_barrier_async", "dispatch_group_async", "dispatch_group_notify", "dispatch_sync")
+    RET = ("dispatch_retain", "_dispatch_retain", "_dispatch_io_data_retain")
+    REL = ("dispatch_release", "_dispatch_release", "_dispatch_io_data_release")
+    n = 0
+    for fn in prog.all_functions():
+        for c in fn.all_insts():
+            if c.op != "call" or c.callee not in SUBMIT:
+                continue
+            b = fn.inst(c.ops[-1])
+            while b is not None and b.op == "bitcast":
+                b = fn.inst(b.ops[0])
+            if b is None or b.op != "alloca":
+                continue
+            fields, inv = {}, None
+            for st in fn.all_insts():
+                if st.op == "store" and st.d.get("ptr") and list(st.d["ptr"]["base"][:2]) == ["i", b.id]:
+                    if st.ops[0][0] in ("f", "g") and "block_invoke" in str(st.ops[0][1]):
+                        inv = st.ops[0][1]
+                    fields[st.d["ptr"].get("off")] = st.ops[0]
+            f2 = prog.fn(inv, required=False) if inv else None
+            if f2 is None:
+                continue
+            for r in f2.all_insts():
+                if r.op != "call" or r.callee not in REL:
+                    continue
+                a = f2.inst(r.ops[0])
+                while a is not None and a.op == "bitcast":
+                    a = f2.inst(a.ops[0])
+                if a is None or a.op != "load" or not a.d.get("ptr") or list(a.d["ptr"]["base"][:2]) != ["a", 0]:
+                    continue
+                cap = fields.get(a.d["ptr"].get("off"))
+                if cap is None:
+                    continue
+                X = root_ptr(fn, cap)
+                rets = [x for x in fn.all_insts() if x.op == "call" and x.callee in RET and root_ptr(fn, x.ops[0]) == X]
+                if not rets:
+                    continue          # the reference is handed over by the caller / an enclosing block (ownership forwarded), not taken here
+                n += 1
+                rep.saw(fn)
+                covered = any(fn.dominates(x, c) for x in rets)
+                if not covered:
+                    # a retain guarded by `if (X)` covers every path on which X is not NULL
+                    bare = [r_ for r_ in paths.walk(fn, entry_point(fn), lambda i: i is c, avoid=lambda i: i in rets) if r_[0] == "hit"]
+                    covered = all(tuple(X) in r_[2].isnull or r_[2].value(list(X)) == paths.NULL for r_ in bare)
+                rep.require(rid, covered, c.loc, fn.name, "block-releases-unretained-capture:%s" % inv,
+                            "%s submits %s, which releases a captured object, on a path where %s has not yet taken the reference it takes for that purpose elsewhere "
+                            "(retain at %s does not dominate the submission): the block drops a reference nobody added - e.g. a dispatch_io_write on a channel stopped "
+                            "in the meantime releases the application's own reference on its data" % (fn.name, inv, fn.name, rets[0].loc),
+                            sample={"fn": fn.name, "block": inv})
+    if n < 15:
+        rep.unknown(rid, "fewer than 15 retain-then-submit sites found in io.c (%d)" % n)
+
+
 def rule_WR8(rep, prog, q):
     rid = rep.rule("C17-WR8", "the queue recorded in a block object's private data carries +2 exactly while it is recorded: dbpd_queue is installed only by a "
                    "compare-exchange from NULL whose success edge retains that queue (+2), and taken back only by an exchange with NULL (whose result is released)", floor=4)
@@ -448,6 +549,11 @@ def run(rep, tier="quick", srcdir=None, only=None):
         rule_WR8(rep, prog, q)
     if want("C17-MP9"):
         rule_MP9(rep, prog, q)
+    if want("C17-OD10"):
+        rule_OD10(rep, prog, q)
+    if want("C17-OD11"):
+        pio, _u = load(["io"], tier, srcdir)
+        rule_OD11(rep, pio)
     if want("C13-OD2"):
         C13.rule_OD2(rep, prog)      # data objects: returned / stored sub-objects are retained (destructors run exactly once)
     if want("C13-WM3"):
